@@ -1,0 +1,94 @@
+//go:build verif
+
+/*
+ * In-package access to ringStripe / ringBuffer and to the Push path of
+ * defaultPolicy for the /verif harness (ring stream, properties C17 / C18).
+ * Compiled only with `-tags verif`; add-only.
+ */
+
+package ristretto
+
+// VerifRingConsumer is ringConsumer, spelled out for callers outside the package.
+type VerifRingConsumer interface {
+	Push([]uint64) bool
+}
+
+// VerifStripe exposes one ringStripe.
+type VerifStripe struct{ S *ringStripe }
+
+// VerifNewRingStripe is newRingStripe.
+func VerifNewRingStripe(cons VerifRingConsumer, capa int64) *VerifStripe {
+	return &VerifStripe{S: newRingStripe(cons, capa)}
+}
+
+func (v *VerifStripe) Push(item uint64) { v.S.Push(item) }
+func (v *VerifStripe) Len() int         { return len(v.S.data) }
+func (v *VerifStripe) Capa() int        { return v.S.capa }
+
+// Data returns a copy of the stripe's present content.
+func (v *VerifStripe) Data() []uint64 { return append([]uint64{}, v.S.data...) }
+
+// VerifRingBuffer exposes a ringBuffer together with every stripe its pool's
+// New function has created so far (in creation order).
+type VerifRingBuffer struct {
+	B       *ringBuffer
+	Created []*VerifStripe
+}
+
+// VerifNewRingBuffer is newRingBuffer; the pool's New is wrapped so that the
+// stripes it creates are recorded (the stripes themselves are untouched).
+func VerifNewRingBuffer(cons VerifRingConsumer, capa int64) *VerifRingBuffer {
+	v := &VerifRingBuffer{B: newRingBuffer(cons, capa)}
+	orig := v.B.pool.New
+	v.B.pool.New = func() interface{} {
+		s := orig()
+		v.Created = append(v.Created, &VerifStripe{S: s.(*ringStripe)})
+		return s
+	}
+	return v
+}
+
+func (v *VerifRingBuffer) Push(item uint64) { v.B.Push(item) }
+
+// VerifRingPolicy exposes the Push path of a defaultPolicy (M is nil when the
+// policy was built without metrics).
+type VerifRingPolicy struct {
+	P *defaultPolicy[uint64]
+	M *Metrics
+}
+
+// VerifNewRingPolicy builds a policy exactly as NewCache does (newPolicy, and
+// CollectMetrics when metrics are on), including its processItems goroutine.
+func VerifNewRingPolicy(numCounters int64, metrics bool) *VerifRingPolicy {
+	v := &VerifRingPolicy{P: newPolicy[uint64](numCounters, 1<<20)}
+	if metrics {
+		v.M = newMetrics()
+		v.P.CollectMetrics(v.M)
+	}
+	return v
+}
+
+func (v *VerifRingPolicy) Push(keys []uint64) bool { return v.P.Push(keys) }
+func (v *VerifRingPolicy) Admit() *VerifTinyLFU    { return &VerifTinyLFU{T: v.P.admit} }
+func (v *VerifRingPolicy) GetsKept() uint64        { return v.M.get(keepGets) }
+func (v *VerifRingPolicy) GetsDropped() uint64     { return v.M.get(dropGets) }
+func (v *VerifRingPolicy) ChanLen() int            { return len(v.P.itemsCh) }
+func (v *VerifRingPolicy) ChanCap() int            { return cap(v.P.itemsCh) }
+func (v *VerifRingPolicy) IsClosed() bool          { return v.P.isClosed }
+func (v *VerifRingPolicy) Clear()                  { v.P.Clear() }
+func (v *VerifRingPolicy) MetricsClear()           { v.M.Clear() }
+func (v *VerifRingPolicy) Close()                  { v.P.Close() }
+
+// Estimate reads the admission estimate of key under the policy lock.
+func (v *VerifRingPolicy) Estimate(key uint64) int64 {
+	v.P.Lock()
+	e := v.P.admit.Estimate(key)
+	v.P.Unlock()
+	return e
+}
+
+// Yield points of the policy goroutine, for callers outside the package.
+const (
+	VerifPointPolPushRecv = vpPolPushRecv
+	VerifPointPolPushed   = vpPolPushed
+)
